@@ -60,8 +60,8 @@ Definition upload_phases : option (list uphase) :=
   if sync_shape_ok then all_some (map cls_upload upload_calls) else None.
 
 (* ---- local blocks ---- *)
-(* what the shipper reads from the local meta.json: has samples, compaction level, min time *)
-Record linfo := mklinfo { l_nonempty : bool; l_level : N; l_mint : Z }.
+(* what the shipper reads from the local meta.json: has samples, compaction level, time range *)
+Record linfo := mklinfo { l_nonempty : bool; l_level : N; l_mint : Z; l_maxt : Z }.
 Definition locals := list (N * linfo).
 
 Fixpoint linfo_of (L : locals) (id : N) : option linfo :=
@@ -102,6 +102,45 @@ Fixpoint run_ups (f : fault) (n : nat) (b : bucket) (done : list bop) (l : list 
       end
   end.
 
+(* ---- lazyOverlapChecker: compacted blocks are shipped only when they overlap nothing ---- *)
+Definition dedupN (l : list N) : list N :=
+  fold_right (fun x acc => if memN x acc then acc else x :: acc) [] l.
+
+(* top-level "directories" of the bucket, as Bucket.Iter("") lists them *)
+Definition block_dirs (b : bucket) : list N := dedupN (map (fun kv => fst (fst kv)) b).
+
+Inductive ckres := CkOk (n : nat) (metas : list (Z * Z)) | CkStop.
+
+(* lazyOverlapChecker.sync after the Iter call: one Get(meta.json) per block directory; a
+   directory without (parseable) meta.json - a partial upload - is an error; blocks with
+   other external labels are skipped *)
+Fixpoint checker_gets (f : fault) (L : locals) (lbl : option N) (b : bucket) (n : nat)
+         (dirs : list N) (acc : list (Z * Z)) : ckres :=
+  match dirs with
+  | [] => CkOk n acc
+  | d :: r =>
+      match tick f n with
+      | OpOk =>
+          match bget b (d, FMeta), linfo_of L d with
+          | Some (MetaO _ _ l), Some i =>
+              let same := match lbl with Some l' => N.eqb l l' | None => false end in
+              checker_gets f L lbl b (S n) r (if same then acc ++ [(l_mint i, l_maxt i)] else acc)
+          | _, _ => CkStop
+          end
+      | _ => CkStop
+      end
+  end.
+
+(* tsdb.OverlappingBlocks on blocks with non-empty time ranges: some two ranges intersect *)
+Definition ranges_meet (a c : Z * Z) : bool := Z.ltb (fst a) (snd c) && Z.ltb (fst c) (snd a).
+Fixpoint overlaps (l : list (Z * Z)) : bool :=
+  match l with
+  | [] => false
+  | a :: r => existsb (ranges_meet a) r || overlaps r
+  end.
+
+Inductive gate := GStop | GGo (n : nat) (ck : option (list (Z * Z))).
+
 Record cfg := mkcfg {
   c_present : list N;        (* block directories in the TSDB dir at this sync *)
   c_uc : bool;               (* uploadCompacted *)
@@ -110,6 +149,25 @@ Record cfg := mkcfg {
   c_fault : fault;
   c_cids : list N            (* oracle: content ids of the meta.json files this sync uploads, in order *)
 }.
+
+(* the overlap check of Sync: skipped for level-1 blocks and with out-of-order uploads; the
+   bucket is listed once per Sync (ck caches the result); GStop: Sync returns an error (or the
+   process died) without further bucket mutation *)
+Definition overlap_gate (L : locals) (c : cfg) (b : bucket) (n : nat) (ck : option (list (Z * Z))) (i : linfo) : gate :=
+  if N.leb (l_level i) 1 || c_ooo c then GGo n ck
+  else
+    let r := match ck with
+             | Some m => CkOk n m
+             | None =>
+                 match tick (c_fault c) n with          (* Bucket.Iter("") *)
+                 | OpOk => checker_gets (c_fault c) L (c_lbl c) b (S n) (block_dirs b) []
+                 | _ => CkStop
+                 end
+             end in
+    match r with
+    | CkOk n' m => if overlaps ((l_mint i, l_maxt i) :: m) then GStop else GGo n' (Some m)
+    | CkStop => GStop
+    end.
 
 Record sres := mksres {
   r_bucket : bucket;
@@ -121,11 +179,10 @@ Record sres := mksres {
 Definition eligible (c : cfg) (i : linfo) : bool :=
   l_nonempty i && (N.leb (l_level i) 1 || c_uc c).
 
-(* the for-loop of Sync. None: a path that is not modelled (overlap check of compacted
-   blocks without out-of-order uploads; unknown block; phases unknown). *)
+(* the for-loop of Sync. None: unknown block / bad order oracle. *)
 Fixpoint sync_loop (ph : list uphase) (U : univ) (L : locals) (c : cfg) (has : list N)
          (blocks : list N) (b : bucket) (n : nat) (ops : list bop) (up : list N) (errs : nat)
-         (cids : list N) : option sres :=
+         (cids : list N) (ck : option (list (Z * Z))) : option sres :=
   match blocks with
   | [] =>
       match tick (c_fault c) n with
@@ -135,35 +192,38 @@ Fixpoint sync_loop (ph : list uphase) (U : univ) (L : locals) (c : cfg) (has : l
   | id :: r =>
       match linfo_of L id, ublock U id with
       | Some i, Some bl =>
-          if memN id has then sync_loop ph U L c has r b n ops (up ++ [id]) errs cids
-          else if negb (l_nonempty i) then sync_loop ph U L c has r b n ops up errs cids
-          else if negb (N.leb (l_level i) 1) && negb (c_uc c) then sync_loop ph U L c has r b n ops up errs cids
+          if memN id has then sync_loop ph U L c has r b n ops (up ++ [id]) errs cids ck
+          else if negb (l_nonempty i) then sync_loop ph U L c has r b n ops up errs cids ck
+          else if negb (N.leb (l_level i) 1) && negb (c_uc c) then sync_loop ph U L c has r b n ops up errs cids ck
           else
             match tick (c_fault c) n with          (* s.bucket.Exists(meta.json) *)
             | OpCrash => Some (mksres b ops None false)
             | OpFail => Some (mksres b ops None false)
             | OpOk =>
-                if bhas b (id, FMeta) then sync_loop ph U L c has r b (S n) ops (up ++ [id]) errs cids
-                else if negb (N.leb (l_level i) 1) && negb (c_ooo c) then None
+                if bhas b (id, FMeta) then sync_loop ph U L c has r b (S n) ops (up ++ [id]) errs cids ck
                 else
+                  match overlap_gate L c b (S n) ck i with
+                  | GStop => Some (mksres b ops None false)
+                  | GGo n1 ck' =>
                   match c_lbl c with
                   | None =>          (* block.Upload refuses empty external labels before any bucket call *)
-                      if c_ooo c then sync_loop ph U L c has r b (S n) ops up (S errs) cids
+                      if c_ooo c then sync_loop ph U L c has r b n1 ops up (S errs) cids ck'
                       else Some (mksres b ops None false)
                   | Some lbl =>
                       let cid := hd 0%N cids in
                       match upload_ops ph U id (map fst (b_chunks bl)) cid lbl with
                       | None => None
                       | Some l =>
-                          match run_ups (c_fault c) (S n) b [] l with
+                          match run_ups (c_fault c) n1 b [] l with
                           | (b', n', done, UDone) =>
-                              sync_loop ph U L c has r b' n' (ops ++ done) (up ++ [id]) errs (tl cids)
+                              sync_loop ph U L c has r b' n' (ops ++ done) (up ++ [id]) errs (tl cids) ck'
                           | (b', n', done, UFailed) =>
-                              if c_ooo c then sync_loop ph U L c has r b' n' (ops ++ done) up (S errs) cids
+                              if c_ooo c then sync_loop ph U L c has r b' n' (ops ++ done) up (S errs) cids ck'
                               else Some (mksres b' (ops ++ done) None false)
                           | (b', n', done, UCrashed) => Some (mksres b' (ops ++ done) None false)
                           end
                       end
+                  end
                   end
             end
       | _, _ => None
@@ -175,7 +235,7 @@ Definition sync (U : univ) (L : locals) (c : cfg) (mf : option (list N)) (b : bu
   | None => None
   | Some ph =>
       let has := match mf with Some l => l | None => [] end in
-      sync_loop ph U L c has (sort_blocks L (c_present c)) b 0 [] [] 0 (c_cids c)
+      sync_loop ph U L c has (sort_blocks L (c_present c)) b 0 [] [] 0 (c_cids c) None
   end.
 
 (* ---- cases ---- *)
